@@ -36,7 +36,11 @@ func (Engine) Generate(r *core.Rng, property, tier string) *core.Plan {
 		// multisig actors: addresses controlled by M of N key-holding actors
 		p.SetKnob("multi", int64(r.Range(1, 2)))
 	}
-	if property == "C31" || property == "C05" && r.Bool(0.3) {
+	if property == "C33" || (property == "C34" || property == "C03") && r.Bool(0.3) {
+		// side-chain withdrawals: the environment's cross-chain arbiters
+		p.SetKnob("wdarbiters", int64(r.Range(3, 6)))
+	}
+	if property == "C31" || property == "C33" || p.Knob("wdarbiters", 0) > 0 || property == "C05" && r.Bool(0.3) {
 		// a cross-chain ('X') address holding deposits, and the emergency
 		// policy thresholds inside the run: freeze from ccfreeze, restriction
 		// from ccfreeze+ccwindow (window 0: no freeze window at all)
@@ -84,7 +88,7 @@ func (Engine) Generate(r *core.Rng, property, tier string) *core.Plan {
 		g.on["fork"], g.on["reorder"], g.on["badblock"] = true, true, true
 	case "C14":
 		g.on["fork"] = true
-	case "C31":
+	case "C31", "C33":
 		g.on["fork"], g.on["mempool"], g.on["reorder"] = true, true, true
 	case "C07":
 		g.on["badblock"] = true
@@ -219,7 +223,40 @@ func (g *gen) badTx() TxSpec {
 	return t
 }
 
+// wdTx: a side-chain withdrawal; honest ones reuse hashes now and then (the
+// same withdrawal relayed twice), Byzantine ones vary the authorisation.
+func (g *gen) wdTx() TxSpec {
+	r := g.r
+	t := TxSpec{From: r.Intn(10), InSel: []int{r.Intn(8)}, To: []int{r.Intn(10), r.Intn(10)}}
+	w := &WdSpec{Ver: r.Intn(3), Signer: r.Intn(12)}
+	for k := r.Pick(0, 6, 3, 1); k > 0; k-- {
+		w.Hashes = append(w.Hashes, r.Intn(8))
+	}
+	if r.Bool(0.3) {
+		t.Fee = r.LogUniform(100, 1000000)
+	}
+	if r.Bool(0.4) {
+		switch r.Pick(6, 1, 1) {
+		case 0:
+			if w.Ver == 2 {
+				w.Auth = r.Range(5, 8)
+			} else {
+				w.Auth = r.Range(1, 4)
+			}
+		case 1:
+			w.Mixed = true
+		case 2:
+			w.DupIn = true
+		}
+	}
+	t.Wd = w
+	return t
+}
+
 func (g *gen) tx() TxSpec {
+	if g.p.Knob("wdarbiters", 0) > 0 && g.r.Bool(0.4) {
+		return g.wdTx()
+	}
 	if g.on["badtx"] && g.r.Bool(0.3) {
 		return g.badTx()
 	}
